@@ -268,6 +268,136 @@ fn exec_random(t: &mut Tape, st: &mut Stats) -> Result<(), String> {
     r
 }
 
+/// Stage 'any_request': requests of every validity class (versions, framing headers incl. non-numeric and zero lengths on
+/// body-less methods, zero to two Host fields, despite-method, Expect). Whether such a request is accepted is C17's business;
+/// here only the state graph's own promises are checked: no call panics, `can_proceed()` is true exactly when `proceed()`
+/// then succeeds, and a flow that did advance is usable in its new state (the empty body can be finished, a response read).
+fn exec_any_request(t: &mut Tape, st: &mut Stats) -> Result<(), String> {
+    use ureq_proto::client::flow::{Await100Result, Flow, RecvResponseResult, SendRequestResult};
+    use ureq_proto::http::{Request, Version};
+    let method = METHODS[t.below(9)].clone();
+    let version = [Version::HTTP_11, Version::HTTP_10, Version::HTTP_2][t.below(3)];
+    let framing = t.below(7);
+    let hosts = t.below(3);
+    let despite = t.below(2) == 1;
+    let expect = t.below(2) == 1;
+    let sizes: &[usize] = [&[2048usize][..], &[0, 1, 30, 2048][..], &[40, 40, 40, 40, 40, 40, 2048][..]][t.below(3)];
+    st.case_digest = t.digest();
+    st.evals(1);
+    let mut b = Request::builder().method(method.clone()).uri("http://q.test/r?s=1").version(version);
+    const FRAMINGS: [&[(&str, &str)]; 7] = [
+        &[],
+        &[("content-length", "0")],
+        &[("content-length", "5")],
+        &[("content-length", "abc")],
+        &[("transfer-encoding", "chunked")],
+        &[("content-length", "5"), ("transfer-encoding", "chunked")],
+        &[("content-length", "0"), ("content-length", "0")],
+    ];
+    for (k, v) in FRAMINGS[framing] {
+        b = b.header(*k, *v);
+    }
+    for i in 0..hosts {
+        b = b.header("host", if i == 0 { "q.test" } else { "other.test" });
+    }
+    if expect {
+        b = b.header("expect", "100-continue");
+    }
+    let what = format!("{} {:?} framing {:?} hosts {} despite {} expect {} buffers {:?}", method, version, FRAMINGS[framing], hosts, despite, expect, sizes);
+    st.describe(|| json!({"stage": "any_request", "request": what}));
+    let req = b.body(()).map_err(|e| e.to_string())?;
+    let mut f = match Flow::new(req) {
+        Ok(f) => f,
+        Err(_) => {
+            st.class("any_request_refused_at_construction");
+            return Ok(());
+        }
+    };
+    if despite {
+        f.send_body_despite_method();
+    }
+    let mut sr = f.proceed();
+    let mut buf = vec![0u8; 2048];
+    let mut errors = 0;
+    for n in sizes {
+        let ready_before = sr.can_proceed();
+        match sr.write(&mut buf[..*n]) {
+            Ok(k) => {
+                if ready_before && k > 0 {
+                    return Err(format!("{}: {} bytes written although the head was reported complete", what, k));
+                }
+            }
+            Err(_) => errors += 1,
+        }
+    }
+    let ready = sr.can_proceed();
+    let next = match sr.proceed() {
+        Ok(Some(n)) => {
+            if !ready {
+                return Err(format!("{}: can_proceed() was false but proceed() advanced", what));
+            }
+            n
+        }
+        Ok(None) | Err(_) => {
+            if ready {
+                return Err(format!("{}: can_proceed() was true but proceed() did not advance", what));
+            }
+            st.class(if errors > 0 { "any_request_refused" } else { "any_request_not_ready" });
+            st.count_nontrivial(1);
+            return Ok(());
+        }
+    };
+    st.class("any_request_advanced");
+    // use the state reached
+    let mut out = [0u8; 64];
+    let mut rr = match next {
+        SendRequestResult::RecvResponse(r) => r,
+        SendRequestResult::SendBody(mut sb) => {
+            // content-length: 5 needs its bytes; everything else is finished by the empty write
+            let data: &[u8] = if framing == 2 { b"12345" } else { b"" };
+            sb.write(data, &mut out).map_err(|e| format!("{}: body write failed: {:?}", what, e))?;
+            if !data.is_empty() && !sb.can_proceed() {
+                sb.write(b"", &mut out).map_err(|e| format!("{}: finishing write failed: {:?}", what, e))?;
+            }
+            let cp = sb.can_proceed();
+            match sb.proceed() {
+                Some(r) if cp => r,
+                None if !cp => return Err(format!("{}: body written and finished but the flow cannot proceed", what)),
+                _ => return Err(format!("{}: SendBody can_proceed() = {} disagrees with proceed()", what, cp)),
+            }
+        }
+        SendRequestResult::Await100(a) => match a.proceed().map_err(|e| format!("{}: Await100::proceed: {:?}", what, e))? {
+            Await100Result::SendBody(mut sb) => {
+                let data: &[u8] = if framing == 2 { b"12345" } else { b"" };
+                sb.write(data, &mut out).map_err(|e| format!("{}: body write failed: {:?}", what, e))?;
+                if !data.is_empty() && !sb.can_proceed() {
+                    sb.write(b"", &mut out).map_err(|e| format!("{}: finishing write failed: {:?}", what, e))?;
+                }
+                sb.proceed().ok_or_else(|| format!("{}: body finished but the flow cannot proceed", what))?
+            }
+            Await100Result::RecvResponse(r) => r,
+        },
+    };
+    let head = b"HTTP/1.1 200 OK\r\nContent-Length: 0\r\n\r\n";
+    match rr.try_response(head) {
+        Ok((n, Some(_))) if n == head.len() => {}
+        other => return Err(format!("{}: response not accepted in the state reached: {:?}", what, other.map(|o| (o.0, o.1.is_some())))),
+    }
+    if !rr.can_proceed() {
+        return Err(format!("{}: response read but not ready", what));
+    }
+    match rr.proceed() {
+        Some(RecvResponseResult::Cleanup(c)) => {
+            let _ = c.must_close_connection();
+        }
+        Some(_) => return Err(format!("{}: 200 with Content-Length 0 did not lead to Cleanup", what)),
+        None => return Err(format!("{}: ready but proceed() is None", what)),
+    }
+    Ok(())
+}
+
+const ANY_BASES: [u64; 7] = [9, 3, 7, 3, 2, 2, 3];
+
 pub static DEF: PropDef = PropDef {
     id: "C09",
     rule: "enumeration 'menu': 9 methods x request version x Expect x send-body-despite-method x request framing {none, Content-Length, \
@@ -277,7 +407,9 @@ and trailer, close-delimited, none} = 37800 cells (invalid requests skipped and 
 with EVERY read-only accessor and permitted no-op (extra head write, headers_map, calculate_max_input, is_chunked, \
 is_on_chunk_boundary, body_mode, can_keep_await_100, ...) called at every step; in the redirect state as_new_flow is called and the \
 followed flow is itself run to completion in one of three variants (plain; body sent despite the method, through Await100 when the \
-Expect header is inherited; an interim 100 arriving although nobody waited). random 'histories': C01's exchange generator under generated schedules with 0..2 \
+Expect header is inherited; an interim 100 arriving although nobody waited). enumeration 'any_request' (6804 cells): requests of every validity class (9 methods x {1.1, 1.0, 2} x framing {none, \
+Content-Length 0 / 5 / abc, chunked, both, two lengths} x 0..2 Host fields x despite x Expect x three buffer schedules for the head): whether the request \
+is accepted is C17's business; checked here: no panic, can_proceed() <=> proceed() advances, an advanced flow is usable to Cleanup. random 'histories': C01's exchange generator under generated schedules with 0..2 \
 premature advance attempts placed anywhere (SendRequest, SendBody, RecvResponse, RecvBody), interleaved queries, boundary-stop \
 toggles, direct-write reports, optional follow. Oracle: no panic; every proceed() succeeds exactly when the readiness query was \
 true (premature attempts yield None and the query was false); the successor state is the one the model prescribes (body due / Expect \
@@ -295,6 +427,13 @@ decoded-choice digest.",
         tape: |_, idx| radix(idx, &BASES),
         exhaustive: true,
         exec: Some(exec_menu),
+    },
+    EnumDef {
+        name: "any_request",
+        count: |_t: Tier| crate::infra::runner::product(&ANY_BASES),
+        tape: |_, idx| radix(idx, &ANY_BASES),
+        exhaustive: true,
+        exec: Some(exec_any_request),
     }],
     randoms: &[RandomDef {
         name: "histories",
